@@ -1,5 +1,5 @@
 #[cfg(test)]
-mod verif_demo_odsxml_c16_indented_document {
+mod verif_demo_odsxml_c04_indented_row {
     use super::*;
     use std::io::{Cursor, Write};
 
@@ -29,21 +29,8 @@ mod verif_demo_odsxml_c16_indented_document {
         r.get_value((0, 0)).cloned().unwrap_or(Data::Empty)
     }
 
-    // ---- C16 (obligation C16.ods_defined_names_accepted): white space (or a comment) between the children of <table:named-expressions>
-    // -- what every indented / pretty-printed content.xml has -- is answered with Err(Mismatch): the workbook cannot be opened at all
-    #[test]
-    fn verif_demo_odsxml_indented_named_expressions_rejected() {
-        let cell = r#"<table:table-cell office:value-type="float" office:value="1"/>"#;
-        let compact = format!("{HEAD}<table:table table:name=\"S\"><table:table-row>{cell}</table:table-row></table:table><table:named-expressions><table:named-range table:name=\"n1\" table:cell-range-address=\"$S.$A$1\"/></table:named-expressions>{TAIL}");
-        let wb = open(&compact).expect("compact form opens");
-        assert_eq!(wb.defined_names(), &[("n1".to_string(), "$S.$A$1".to_string())]);
-        let indented = format!("{HEAD}<table:table table:name=\"S\"><table:table-row>{cell}</table:table-row></table:table><table:named-expressions>\n  <table:named-range table:name=\"n1\" table:cell-range-address=\"$S.$A$1\"/>\n</table:named-expressions>{TAIL}");
-        assert!(matches!(open(&indented), Err(OdsError::Mismatch { expected: "table:named-expressions", .. })));
-        let commented = format!("{HEAD}<table:table table:name=\"S\"><table:table-row>{cell}</table:table-row></table:table><table:named-expressions><!-- names --><table:named-range table:name=\"n1\" table:cell-range-address=\"$S.$A$1\"/></table:named-expressions>{TAIL}");
-        assert!(matches!(open(&commented), Err(OdsError::Mismatch { expected: "table:named-expressions", .. })));
-    }
-    // the same defect in read_row (under contract in unit ods, whose clauses are all stated for `r is Ok`): white space between
-    // <table:table-row> and <table:table-cell> is answered with Err(Mismatch)
+    // ---- C04 (native demonstration only): white space between <table:table-row> and <table:table-cell> -- what every indented
+    // content.xml has -- is answered with Err(Mismatch): the workbook cannot be opened at all (read_row; unit ods)
     #[test]
     fn verif_demo_odsxml_indented_row_rejected() {
         let cell = r#"<table:table-cell office:value-type="float" office:value="1"/>"#;
